@@ -160,7 +160,7 @@ def formula_set(tier):
 def params(tier):
     if tier == 'quick':
         return dict(values=(F.V3, F.V2), maxdepth=6, max_transitions=1200, validate='first')
-    return dict(values=(F.V3, F.V3), maxdepth=9, max_transitions=200000, validate='all')
+    return dict(values=(F.V3, F.V3), maxdepth=9, max_transitions=20000, validate='first')
 
 
 def shards(tier):
